@@ -331,11 +331,14 @@ func (s *Sorter) SortedBlocks(ctx context.Context, removedCols map[int]struct{},
 			}
 
 			// append min row to block
-			minRow = r.RemoveFrom(minRow)
 			row := dec.Decode(minRow)
 			slice.CopyValuesFromIndices(row, rowPK, pkIndices)
 			pkOK := pkIsDifferent(rowPK, &prevRowPK)
 			if pkOK {
+				if s.profiler != nil {
+					s.profiler.Process(row)
+				}
+				minRow = r.RemoveFrom(minRow)
 				m := len(blk)
 				blk = blk[:m+1]
 				if k := len(minRow); k > cap(blk[m]) {
@@ -344,9 +347,6 @@ func (s *Sorter) SortedBlocks(ctx context.Context, removedCols map[int]struct{},
 					blk[m] = blk[m][:k]
 				}
 				copy(blk[m], minRow)
-				if s.profiler != nil {
-					s.profiler.Process(row)
-				}
 				if len(blkPK) == 0 {
 					blkPK = blkPK[:len(pkIndices)]
 					copy(blkPK, rowPK)
